@@ -3,6 +3,7 @@ pub mod c12;
 pub mod c14;
 pub mod c15;
 pub mod c16;
+pub mod c17;
 pub mod real;
 pub mod c18;
 pub mod generic;
@@ -197,6 +198,7 @@ pub fn run(name: &str, args: &Args) -> Option<Report> {
             let (seed, start, iters) = (args.seed, args.start, args.iters);
             guarded(&mut rep, name, "C16", seed, start, |rep| c16::run(seed, start, iters, every, rep));
         }
+        "c17" => c17::run(args.seed, args.start, args.iters, &mut rep),
         "c10" => c10::run(args.seed, args.start, args.iters, &mut rep),
         "c08wrap" => {
             for i in args.start..args.start + args.iters {
